@@ -572,6 +572,13 @@ def ab4(model):
         else:
             r.fail(rets[0], 'the excerpt text does not have the length of the window: replaced '
                    'characters change the length')
+    # (d) the window starts at or before the flagged characters
+    if rst.facts.prove_ge0(OFF - win[0]):
+        r.ok(rets[0], 'the window starts at or before the offset', nontrivial=True)
+    else:
+        r.fail(rets[0], 'the window starts at %r, which is not provably at or before the offset: the offset '
+               'inside the excerpt can be negative and the excerpt marks other characters' % win[0],
+               witness='a match more than 45 characters into a text without blanks in front of it')
     # (c) the marked characters lie inside the excerpt: offset + length <= end of the window
     if LEN is not None and 'length' in items:
         lv = ev.as_int(ev.ev(items['length'], rst), rst)
